@@ -9,6 +9,7 @@ from . import symnumpy
 from .explorer import cur, SymBool, PathAbort, unsupported
 from .scalar import Z, C, SymInt, real, integer, to_z3_real, re_part, im_part
 from .values import seeded_fraction, seeded_int
+from . import apoly
 
 DT = {'float64': st.float64, 'float32': st.float32, 'complex128': st.complex128, 'complex64': st.complex64,
       'int64': st.int64}
@@ -45,6 +46,19 @@ def diff_clauses(a, b):
             if x == y:
                 continue
             out.append(z3.BoolVal(True))
+            continue
+        if isinstance(x, apoly.P) or isinstance(y, apoly.P):
+            d = x - y
+            if apoly.is_structural_zero(d):
+                continue
+            d = d.cleared() if isinstance(d, apoly.P) else d
+            if apoly.is_structural_zero(d):
+                continue
+            if not isinstance(d, apoly.P):
+                out.append(z3.BoolVal(True))
+                continue
+            apoly.register_side(d.symbols())
+            out.append(d.to_z3() != 0)
             continue
         xr, xi = scalar_terms(x)
         yr, yi = scalar_terms(y)
@@ -123,17 +137,43 @@ class BaseEnv:
 class SymEnv(BaseEnv):
     mode = 'sym'
 
-    def __init__(self, tt, qtimeout_ms=30000):
+    def __init__(self, tt, qtimeout_ms=30000, scalar_mode='Z'):
         BaseEnv.__init__(self, tt)
         self.qtimeout_ms = qtimeout_ms
+        self.scalar_mode = scalar_mode
 
     # -- inputs
     def _fresh_arr(self, name, shape, dtype):
         a = np.empty(tuple(shape), dtype=object)
         cplx = dtype.startswith('complex')
         for ix in np.ndindex(*tuple(shape)):
-            a[ix] = C(real(name + '.re'), real(name + '.im')) if cplx else real(name)
+            if self.scalar_mode == 'A':
+                if cplx:
+                    unsupported('complex A-scalars')
+                a[ix] = apoly.new_real(name)
+            else:
+                a[ix] = C(real(name + '.re'), real(name + '.im')) if cplx else real(name)
         return a
+
+    def pos_tensor(self, name, shape, pattern, dtype='float64', source='torch'):
+        """dense array, strictly positive symbols at the pattern positions, structural zeros elsewhere (A-scalars)"""
+        a = np.empty(tuple(shape), dtype=object)
+        a[...] = 0
+        for ix in pattern:
+            a[tuple(ix)] = apoly.new_pos(name)
+        self.inputs[name] = {'kind': 'pos_tensor', 'dtype': dtype, 'shape': list(shape), 'syms': a.copy()}
+        if source == 'numpy':
+            return symnumpy.ndarray(a, DT[dtype])
+        return st.Tensor(a, DT[dtype])
+
+    def pos_scalar(self, name, lo=None, hi=None):
+        v = apoly.new_pos(name)
+        self.inputs[name] = {'kind': 'scalar', 'skind': 'float', 'syms': v}
+        if lo is not None:
+            self.assume(v > lo)
+        if hi is not None:
+            self.assume(v < hi)
+        return v
 
     def tensor(self, name, shape, dtype='float64'):
         a = self._fresh_arr(name, shape, dtype)
@@ -163,7 +203,7 @@ class SymEnv(BaseEnv):
             v = C(real(name + '.re'), real(name + '.im'))
             self.inputs[name] = {'kind': 'scalar', 'skind': kind, 'syms': v}
             return v
-        v = real(name, 'npfloat' if kind == 'npfloat' else 'float')
+        v = apoly.new_real(name) if self.scalar_mode == 'A' else real(name, 'npfloat' if kind == 'npfloat' else 'float')
         self.inputs[name] = {'kind': 'scalar', 'skind': kind, 'dtype': dtype, 'syms': v}
         if kind == 'tensor0':
             return st.Tensor(st._objarr(v), DT[dtype])
@@ -189,6 +229,8 @@ class SymEnv(BaseEnv):
                 return [val(s.re), val(s.im)]
             if isinstance(s, (int, float, Fraction)):
                 f = Fraction(s)
+            elif isinstance(s, apoly.P):
+                f = _frac(model.eval(s.to_z3(), model_completion=True))
             else:
                 t = s.t
                 f = _frac(model.eval(t, model_completion=True))
@@ -370,12 +412,27 @@ class ExactEnv(BaseEnv):
         if not bool(cond):
             raise PathAbort('assume false')
 
+    def pos_tensor(self, name, shape, pattern, dtype='float64', source='torch'):
+        a = np.empty(tuple(shape), dtype=object)
+        a[...] = 0
+        for k, ix in enumerate(pattern):
+            a[tuple(ix)] = apoly.P.const(abs(seeded_fraction(self.seed, name, k)))
+        if source == 'numpy':
+            return symnumpy.ndarray(a, DT[dtype])
+        return st.Tensor(a, DT[dtype])
+
+    def pos_scalar(self, name, lo=None, hi=None):
+        f = abs(seeded_fraction(self.seed, name, 0))
+        if hi is not None:
+            f = f * Fraction(hi) / 4
+        return apoly.P.const(f)
+
     @staticmethod
     def _fl(v):
         if isinstance(v, (Z, SymInt)):
             return float(_frac(z3.simplify(to_z3_real(v))))
-        if hasattr(v, 'to_z3'):
-            return float(_frac(z3.simplify(v.to_z3())))
+        if isinstance(v, apoly.P):
+            return apoly.eval_float(v)
         return float(v)
 
     @classmethod
